@@ -34,6 +34,15 @@ def getSub (st : TraceSt) (sid : Nat) : Option SubState := (st.subs.find? (·.1 
 def setSub (st : TraceSt) (sid : Nat) (s : SubState) : TraceSt :=
   { st with subs := (st.subs.filter (·.1 != sid)) ++ [(sid, s)] }
 
+def digP : Nat := 2305843009213693951
+
+/-- Digest of the whole actor state, as computed by the `state` hook. -/
+def stateDigest (s : SubState) : String :=
+  let h := s.backlog.foldl (fun h m => (h * 1000003 + m.id) % digP) 0
+  let x := s.out.msgs.foldl (fun x d => (x + ((d.ack * 1000003 + d.msg.id) % digP * 1000003 + d.deadline) % digP) % digP) 0
+  toString s.backlog.length ++ " " ++ toString h ++ " " ++ toString s.out.msgs.length ++ " " ++ toString x ++ " " ++
+    (match s.out.nextExpiration with | some n => toString n | none => "-")
+
 def subEvent (st : TraceSt) (sid : Nat) (rest : List String) : TraceSt × String :=
   match rest with
   | "new" :: dl :: _ => (setSub st sid (SubState.init (parseNat dl)), "ok")
@@ -86,6 +95,11 @@ def subEvent (st : TraceSt) (sid : Nat) (rest : List String) : TraceSt × String
         let want := ex ++ " | " ++ bl ++ " " ++ ol ++ " " ++ nf
         if o.ub then (st, "MISMATCH expire model hits the unchecked unwrap")
         else if got == want then (setSub st sid s', "ok") else (setSub st sid s', "MISMATCH expire model=[" ++ got ++ "] impl=[" ++ want ++ "]")
+      | "state" :: dig =>
+        let want := " ".intercalate dig
+        let got := stateDigest s
+        -- after delete.end the actor has cleared everything; its digest is then all zero
+        if got == want then (st, "ok") else (st, "MISMATCH state model=[" ++ got ++ "] impl=[" ++ want ++ "]")
       | ["delete.begin"] =>
         if s.deleted then (st, "MISMATCH delete.begin on a deleted actor")
         else (setSub st sid (s.turn .deleteBegin).1, "ok")
